@@ -195,13 +195,18 @@ pub fn run(args: &Args) -> (Meta, Stats) {
                 let soup = gen::xml_doc(&mut rng, 10);
                 check(&soup, st, "soup");
             }
+            if rng.chance(1, 40) {
+                // long text / attribute values / URIs with escapable characters on and around block sizes
+                let big = crate::big::big_xml(&mut rng);
+                check(&big, st, "scaled-up");
+            }
         }
     });
     let mut m = super::meta(
         args,
-        "T1 = xml5ever parse of a namespace-shape document (prefixes used only by attributes, same prefix on siblings, default-namespace un-declaration, nested shadowing, hostile text/attribute strings with & < > \" ' ]]> -- and CR/LF/TAB via character references) or of XML soup; bytes = xml5ever::serialize(T1); T2 = parse(bytes); T1 and T2 are compared node by node (element/attribute local names, prefixes, namespace URIs, values, text, comments, PIs; doctype excluded). Every parsed input counts as a distinct non-trivial case (hash of the input).",
+        "T1 = xml5ever parse of a namespace-shape document (prefixes used only by attributes, same prefix on siblings, default-namespace un-declaration, nested shadowing, hostile text/attribute strings with & < > \" ' ]]> -- and CR/LF/TAB via character references) or of XML soup, or of a scaled-up document (text, attribute values, comments, PIs, CDATA and namespace URIs of up to 9000 bytes with escapable characters placed on and around power-of-two offsets up to 8192, wide tags, hundreds of siblings); bytes = xml5ever::serialize(T1); T2 = parse(bytes); T1 and T2 are compared node by node (element/attribute local names, prefixes, namespace URIs, values, text, comments, PIs; doctype excluded). Every parsed input counts as a distinct non-trivial case (hash of the input).",
         &["trees come from parsing, as the property states; RcDom is the tree representation on both sides"],
     );
-    m.require = vec![("round_trips_ok:shapes".into(), 2000)];
+    m.require = vec![("round_trips_ok:shapes".into(), 2000), ("round_trips_ok:scaled-up".into(), 300)];
     (m, st)
 }
